@@ -3,6 +3,7 @@ From Coq Require Import Bool ZArith List.
 From K Require Import Lib.Types Model.Machine Model.Bus Model.Cost Model.Addressing Model.Alu Model.Exec Spec.MemMap Spec.ISA
   Proofs.FlagProofs Proofs.AluProofs Proofs.RegProofs Proofs.BusProofs Proofs.StepProofs Proofs.MemProofs Proofs.CtlProofs Proofs.MovProofs.
 From K Require Import Proofs.StepRefines.
+From K Require Import Proofs.StepRefinesCtl Proofs.StepRefines2.
 Open Scope Z_scope.
 
 (* MOV Rs,Rd (B/W/L): the value of the source lane is copied unchanged into the destination lane, N and Z
@@ -127,6 +128,82 @@ Theorem step_mov_register :
     exists s', sem_ref (IMovRR z rs rd) 2 s = Some s' /\ step s = Ok n (set_opc (pc s) s').
 Proof. exact step_mov_rr_proof. Qed.
 
+(* MOV.B #xx:8,Rd *)
+Theorem step_mov_immediate_byte :
+  forall s w w1 w2 w3 w4 imm rd n,
+    cpu_ok s -> bus_bytes_ok s -> fault s = false -> pc s mod 2 = 0 -> 0 <= pc s -> pc s + 2 < 4294967296 ->
+    mem_read SW s (pc s) = Some w ->
+    decode_ref w w1 w2 w3 w4 = Some (IMovImm SB imm rd, 2) ->
+    cs KI 1 (post_fetch s) = Ok n (post_fetch s) ->
+    exists s', sem_ref (IMovImm SB imm rd) 2 s = Some s' /\ step s = Ok n (set_opc (pc s) s').
+Proof. exact step_mov_imm_b_proof. Qed.
+
+(* MOV.B/W @ERs,Rd: from the instruction word in memory to sem_ref *)
+Theorem step_mov_load_register_indirect :
+  forall s w w1 w2 w3 w4 z r rd n s',
+    cpu_ok s -> bus_bytes_ok s -> fault s = false -> pc s mod 2 = 0 -> 0 <= pc s -> pc s + 2 < 4294967296 ->
+    mem_read SW s (pc s) = Some w ->
+    decode_ref w w1 w2 w3 w4 = Some (IMovLoad z (EInd r) rd, 2) ->
+    sem_ref (IMovLoad z (EInd r) rd) 2 s = Some s' ->
+    mov_charge z (ea_addr z s (EInd r)) 1 0 (set_opc (pc s) s') = Ok n (set_opc (pc s) s') ->
+    step s = Ok n (set_opc (pc s) s').
+Proof. exact step_mov_load_ern_proof. Qed.
+
+(* MOV.B/W Rs,@ERd *)
+Theorem step_mov_store_register_indirect :
+  forall s w w1 w2 w3 w4 z rs r n s',
+    cpu_ok s -> bus_bytes_ok s -> fault s = false -> pc s mod 2 = 0 -> 0 <= pc s -> pc s + 2 < 4294967296 ->
+    mem_read SW s (pc s) = Some w ->
+    decode_ref w w1 w2 w3 w4 = Some (IMovStore z rs (EInd r), 2) ->
+    sem_ref (IMovStore z rs (EInd r)) 2 s = Some s' ->
+    mov_charge z (ea_addr z s (EInd r)) 1 0 (set_opc (pc s) s') = Ok n (set_opc (pc s) s') ->
+    step s = Ok n (set_opc (pc s) s').
+Proof. exact step_mov_store_ern_proof. Qed.
+
+(* MOV.B @aa:8,Rd *)
+Theorem step_mov_load_absolute8 :
+  forall s w w1 w2 w3 w4 a rd n s',
+    cpu_ok s -> bus_bytes_ok s -> fault s = false -> pc s mod 2 = 0 -> 0 <= pc s -> pc s + 2 < 4294967296 ->
+    mem_read SW s (pc s) = Some w ->
+    decode_ref w w1 w2 w3 w4 = Some (IMovLoad SB (EAbs a) rd, 2) ->
+    sem_ref (IMovLoad SB (EAbs a) rd) 2 s = Some s' ->
+    mov_charge SB a 1 0 (set_opc (pc s) s') = Ok n (set_opc (pc s) s') ->
+    step s = Ok n (set_opc (pc s) s').
+Proof. exact step_mov_load_abs8_proof. Qed.
+
+(* MOV.B Rs,@aa:8 *)
+Theorem step_mov_store_absolute8 :
+  forall s w w1 w2 w3 w4 a rs n s',
+    cpu_ok s -> bus_bytes_ok s -> fault s = false -> pc s mod 2 = 0 -> 0 <= pc s -> pc s + 2 < 4294967296 ->
+    mem_read SW s (pc s) = Some w ->
+    decode_ref w w1 w2 w3 w4 = Some (IMovStore SB rs (EAbs a), 2) ->
+    sem_ref (IMovStore SB rs (EAbs a)) 2 s = Some s' ->
+    mov_charge SB a 1 0 (set_opc (pc s) s') = Ok n (set_opc (pc s) s') ->
+    step s = Ok n (set_opc (pc s) s').
+Proof. exact step_mov_store_abs8_proof. Qed.
+
+(* POP / MOV.B/W @ERs+,Rd *)
+Theorem step_pop :
+  forall s w w1 w2 w3 w4 z r rd n s',
+    cpu_ok s -> bus_bytes_ok s -> fault s = false -> pc s mod 2 = 0 -> 0 <= pc s -> pc s + 2 < 4294967296 ->
+    mem_read SW s (pc s) = Some w ->
+    decode_ref w w1 w2 w3 w4 = Some (IMovLoad z (EPostInc r) rd, 2) ->
+    sem_ref (IMovLoad z (EPostInc r) rd) 2 s = Some s' ->
+    incdec_charge z (ea_addr z s (EPostInc r)) (set_opc (pc s) s') = Ok n (set_opc (pc s) s') ->
+    step s = Ok n (set_opc (pc s) s').
+Proof. exact step_mov_postinc_proof. Qed.
+
+(* PUSH / MOV.B/W Rs,@-ERd *)
+Theorem step_push :
+  forall s w w1 w2 w3 w4 z rs r n s',
+    cpu_ok s -> bus_bytes_ok s -> fault s = false -> pc s mod 2 = 0 -> 0 <= pc s -> pc s + 2 < 4294967296 ->
+    mem_read SW s (pc s) = Some w ->
+    decode_ref w w1 w2 w3 w4 = Some (IMovStore z rs (EPreDec r), 2) ->
+    sem_ref (IMovStore z rs (EPreDec r)) 2 s = Some s' ->
+    incdec_charge z (ea_addr z s (EPreDec r)) (set_opc (pc s) s') = Ok n (set_opc (pc s) s') ->
+    step s = Ok n (set_opc (pc s) s').
+Proof. exact step_mov_predec_proof. Qed.
+
 Print Assumptions mov_register_refines.
 Print Assumptions mov_flags_rule.
 Print Assumptions byte_lane_read.
@@ -143,3 +220,10 @@ Print Assumptions mov_absolute8_store.
 Print Assumptions mov_post_increment_load.
 Print Assumptions mov_pre_decrement_store.
 Print Assumptions step_mov_register.
+Print Assumptions step_mov_immediate_byte.
+Print Assumptions step_mov_load_register_indirect.
+Print Assumptions step_mov_store_register_indirect.
+Print Assumptions step_mov_load_absolute8.
+Print Assumptions step_mov_store_absolute8.
+Print Assumptions step_pop.
+Print Assumptions step_push.
